@@ -234,3 +234,25 @@ def check_properties(prop_id):
                                 'assumptions': assumptions.get(nm)})
     res['ok'] = (rc == 0)
     return res
+
+
+def coqchk(prop_id):
+    """Thorough tier: re-check the compiled property file and everything it depends on with the independent checker.
+
+    Returns dict(ok, axioms=[...], summary, wall)."""
+    t0 = time.time()
+    lock = open(os.path.join(paths.COQ, '.lock'), 'w')
+    fcntl.flock(lock, fcntl.LOCK_SH)
+    try:
+        rc, out = _run(['timeout', '3000', 'coqchk', '-o', '-silent', '-R', '.', 'BSE', 'BSE.Properties.%s' % prop_id], paths.COQ, 3100)
+    finally:
+        fcntl.flock(lock, fcntl.LOCK_UN)
+        lock.close()
+    tail = out[out.rfind('CONTEXT SUMMARY'):] if 'CONTEXT SUMMARY' in out else out[-1500:]
+    m = re.search(r'\* Axioms:\s*(.*?)\n\s*\n\* Constants', tail, re.S)
+    axioms = []
+    if m and '<none>' not in m.group(1):
+        axioms = [l.strip() for l in m.group(1).split('\n') if l.strip()]
+    unsafe = [k for k in ('type-in-type', 'unsafe (co)fixpoints', 'positivity is assumed')
+              if re.search(re.escape(k) + r':\s*(?!<none>)\S', tail)]
+    return {'ok': rc == 0 and not unsafe, 'rc': rc, 'axioms': axioms, 'unsafe': unsafe, 'summary': tail[-1200:], 'wall': round(time.time() - t0, 1)}
